@@ -1098,7 +1098,7 @@ func runMain(args []string) {
 			return 2
 		case h.Stream == "typeconf" && strings.Contains(h.Name, "/local/"):
 			return 3
-		case h.Stream == "frames" && strings.Contains(h.Name, "frametypes"):
+		case h.Stream == "frames" && (strings.Contains(h.Name, "frametypes") || strings.Contains(h.Name, "limited")):
 			return 4
 		case h.Stream == "states":
 			return 5
